@@ -1,8 +1,10 @@
-(* C20 -- the statements of Properties/C20.v, assembled from Inv.v, Rank.v,
-   Check.v and Cycle.v, and the link to the scripted simulations of Model.v. *)
+(* C20 -- the statements of Properties/C20.v, assembled from Inv.v, Rank.v, Check.v, Cycle.v
+   and Reach.v, and what they mean for the numbers the model prints. *)
 From Coq Require Import List NArith Arith Bool Lia.
-From DesVerif Require Import Own.Heap Own.Frame Own.Inv Own.Shape Own.Rank Own.Check Own.Cycle Own.World Own.Model.
+From DesVerif Require Import Common.Codec Own.Heap Own.Frame Own.Inv Own.Shape Own.Rank Own.Check Own.Cycle Own.Safe Own.SafeP
+  Own.World Own.Model Own.Reach.
 Import ListNotations.
+Local Open Scope nat_scope.
 
 Theorem no_release_after_free s roots : inv s roots ->
   bad (release_all s roots) = [] /\ NoDup (freed (release_all s roots)) /\ inv (release_all s roots) [].
@@ -12,33 +14,113 @@ Qed.
 
 Theorem user_objects_freed_exactly_once s roots : good false s roots ->
   forall o t, tag_of (hp s) o = Some t -> user_tag t = true ->
-    cnt o (freed (release_all s roots)) = 1%nat /\ is_live (hp (release_all s roots)) o = false.
+    cnt o (freed (release_all s roots)) = 1 /\ is_live (hp (release_all s roots)) o = false.
 Proof.
   intros G o t Ht U.
-  assert (Ho : (o < length (hp s))%nat).
+  assert (Ho : o < length (hp s)).
   { unfold tag_of in Ht. destruct (nth_error (hp s) o) eqn:E; [|discriminate]. eapply nth_some_lt; eassumption. }
   split; [apply freed_exactly_once; assumption|].
   unfold is_live. destruct (nth_error (hp (release_all s roots)) o) as [ob|] eqn:E; [|reflexivity].
   exact (all_freed s roots G o ob E).
 Qed.
 
-(* What the model prints: if the first number of [run_gen false script] is 1, the graph the
-   simulation has reached at its stopping point is one to which the theorems apply, and the
-   counters that follow are then forced: nothing alive at all. *)
-Theorem run_ok_means_all_freed input :
-  let '(w, roots, _) := stop_state false input in
-  goodb false (w_st w) roots = true -> alive_users (hp (release_all (w_st w) roots)) = 0%N.
+(* ---- the printed verdict ---- *)
+Lemma release_all_length s roots : length (hp (release_all s roots)) = length (hp s).
 Proof.
-  destruct (stop_state false input) as [[w roots] x]. intros Hg. apply goodb_sound in Hg.
-  unfold alive_users.
-  assert (H : filter (fun ob => user_tag (otag ob) && live ob) (hp (release_all (w_st w) roots)) = []); [|rewrite H; reflexivity].
-  destruct (filter _ _) as [|ob l] eqn:E; [reflexivity|exfalso].
-  assert (Hin : In ob (filter (fun ob => user_tag (otag ob) && live ob) (hp (release_all (w_st w) roots)))) by (rewrite E; left; reflexivity).
-  apply filter_In in Hin. destruct Hin as [Hin Hb]. apply andb_true_iff in Hb. destruct Hb as [U L].
-  apply In_nth_error in Hin. destruct Hin as (o & Eo).
-  pose proof (all_freed _ _ Hg o ob Eo) as Tm. congruence.
+  destruct (Nat.lt_trichotomy (length (hp (release_all s roots))) (length (hp s))) as [H|[H|H]]; [exfalso|assumption|exfalso].
+  - pose proof (release_all_tag s roots (length (hp (release_all s roots)))) as E. unfold tag_of in E.
+    destruct (nth_lt_some _ _ H) as (x & Ex). rewrite Ex in E.
+    assert (N0 : nth_error (hp (release_all s roots)) (length (hp (release_all s roots))) = None) by (apply nth_error_None; lia).
+    rewrite N0 in E. discriminate.
+  - pose proof (release_all_tag s roots (length (hp s))) as E. unfold tag_of in E.
+    destruct (nth_lt_some _ _ H) as (x & Ex). rewrite Ex in E.
+    assert (N0 : nth_error (hp s) (length (hp s)) = None) by (apply nth_error_None; lia).
+    rewrite N0 in E. discriminate.
 Qed.
 
-(* the graph of an empty simulation (Sim::new, nothing else) is well formed *)
-Theorem empty_sim_good : let '(w, roots, _) := stop_state false [] in good false (w_st w) roots.
-Proof. apply goodb_sound. vm_compute. reflexivity. Qed.
+Lemma filter_seq_nth (q : obj -> bool) : forall h : heap,
+  length (filter (fun o => match nth_error h o with Some ob => q ob | None => false end) (seq 0 (length h)))
+  = length (filter q h).
+Proof.
+  induction h as [|x h IH] using rev_ind; [reflexivity|].
+  rewrite app_length. cbn [length]. rewrite Nat.add_1_r, seq_S, !filter_app, !app_length. cbn [Nat.add filter].
+  rewrite nth_error_app2 by lia. rewrite Nat.sub_diag. cbn [nth_error]. f_equal.
+  - rewrite <- IH. f_equal. apply filter_ext_in. intros o Ho. apply in_seq in Ho. rewrite nth_error_app1 by lia. reflexivity.
+  - destruct (q x); reflexivity.
+Qed.
+
+Lemma count_once_all (p : tag -> bool) s' :
+  (forall o, o < length (hp s') -> cnt o (freed s') = 1) -> count_once p s' = count_tag p (hp s').
+Proof.
+  intros H. unfold count_once, count_tag. f_equal.
+  rewrite <- (filter_seq_nth (fun ob => p (otag ob)) (hp s')). f_equal. apply filter_ext_in. intros o Ho. apply in_seq in Ho.
+  destruct (nth_error (hp s') o); [|reflexivity]. unfold cnt in H. rewrite H by lia. cbn. apply andb_true_r.
+Qed.
+
+Lemma count_user_split h :
+  (count_tag user_tag h = count_tag is_proc h + count_tag is_elem h + count_tag is_task h + count_tag is_msg h)%N.
+Proof.
+  unfold count_tag. induction h as [|x h IH]; [reflexivity|]. cbn [filter].
+  destruct (otag x); cbn [user_tag is_proc is_elem is_task is_msg length]; rewrite ?Nat2N.inj_succ; lia.
+Qed.
+
+Lemma all_dead_filter (q : obj -> bool) (h : heap) :
+  (forall ob, In ob h -> live ob = false) -> filter (fun ob => q ob && live ob) h = [].
+Proof.
+  induction h as [|x h IH]; intros H; [reflexivity|]. cbn [filter].
+  rewrite (H x (or_introl eq_refl)), andb_false_r. apply IH. intros ob Hin. apply H. right. assumption.
+Qed.
+
+Lemma all_dead_existsb (h : heap) : (forall ob, In ob h -> live ob = false) -> existsb live h = false.
+Proof.
+  induction h as [|x h IH]; intros H; [reflexivity|]. cbn [existsb].
+  rewrite (H x (or_introl eq_refl)). apply IH. intros ob Hin. apply H. right. assumption.
+Qed.
+
+(* if nothing is alive and everything is in the log once, the model prints: once = created,
+   0 instances dropped otherwise, 0 alive, nothing allocated *)
+Lemma verdict_all_freed s' :
+  (forall o ob, nth_error (hp s') o = Some ob -> live ob = false) ->
+  (forall o, o < length (hp s') -> cnt o (freed s') = 1) ->
+  verdict s' = ([count_tag is_proc (hp s'); count_tag is_elem (hp s'); count_tag is_task (hp s'); count_tag is_msg (hp s')],
+                [count_tag is_proc (hp s'); count_tag is_elem (hp s'); count_tag is_task (hp s'); count_tag is_msg (hp s')],
+                0, 0, 0)%N.
+Proof.
+  intros Hd Ho. unfold verdict. rewrite !(count_once_all _ _ Ho). cbn [nth].
+  assert (Hin : forall ob, In ob (hp s') -> live ob = false).
+  { intros ob H. apply In_nth_error in H. destruct H as (o & E). eapply Hd; eassumption. }
+  pose proof (all_dead_filter (fun ob => user_tag (otag ob)) _ Hin) as Hl. pose proof (all_dead_existsb _ Hin) as He.
+  unfold alive_users. rewrite Hl, He, count_user_split. cbn [length b2n N.of_nat]. f_equal. f_equal. f_equal. lia.
+Qed.
+
+(* END TO END: every script, every stopping point.  The graph the simulation has reached is
+   well formed (Reach.v), hence (Rank.v) dropping the handles held then frees every object
+   exactly once, and the model's verdict is forced. *)
+Theorem every_simulation_releases_everything input :
+  let '(s, roots, _) := stop_state false input in
+  let s' := release_all s roots in
+  good false s roots /\
+  (forall o ob, nth_error (hp s') o = Some ob -> live ob = false) /\
+  (forall o, o < length (hp s) -> cnt o (freed s') = 1) /\
+  bad s' = [] /\
+  exists created, verdict s' = (created, created, 0, 0, 0)%N.
+Proof.
+  pose proof (stop_state_good false input) as Gd. destruct (stop_state false input) as [[s roots] info]. cbv zeta.
+  pose proof (all_freed s roots Gd) as Hd. pose proof (freed_exactly_once s roots Gd) as Ho.
+  split; [assumption|]. split; [assumption|]. split; [assumption|]. split.
+  - destruct Gd as [I _ _]. apply (no_release_after_free _ _ I).
+  - eexists. apply verdict_all_freed; [assumption|]. intros o H. apply Ho. rewrite release_all_length in H. assumption.
+Qed.
+
+(* the same for the line the model prints *)
+Theorem run_prints_all_freed input :
+  exists ok res nrem time created lg,
+    run input = ([ok; res; nrem; time] ++ created ++ created ++ [0; 0; N.of_nat (length lg / 4)] ++ lg
+                 ++ [ok; res; nrem; time] ++ created ++ created ++ [0; 0; N.of_nat (length lg / 4)] ++ lg ++ [0])%N.
+Proof.
+  unfold run, run_gen. pose proof (every_simulation_releases_everything input) as H.
+  destruct (stop_state false input) as [[s roots] [[[res nrem] time] lg]]. cbv zeta in H.
+  destruct H as (_ & _ & _ & _ & created & Hv). rewrite Hv.
+  exists (b2n (goodb false s roots)), res, nrem, time, created, lg.
+  rewrite <- !app_assoc. cbn [app]. reflexivity.
+Qed.
